@@ -300,4 +300,171 @@ theorem relink_inv {c : Core} {item dest : Nat} (hI : Inv c) (hi : item < c.n) (
   · rw [f1, s1, s3, f3, f4]; exact hI.lists
   · rw [f1, s1, s4, s5, f5]; exact hI.living
 
+/-- find_obj_n on the name of a live object finds that object and cycles it to the front -/
+theorem lookupC_live {c : Core} {ob : Nat} (hI : Names c.n (deadF c) (nameF c) c.ot c.ctr) (ho : ob < c.n) (hd : (c.objs ob).destructed = false) :
+    lookupC c (c.objs ob).name =
+      (setOt c (hashN (c.objs ob).name) (ob :: (c.ot (hashN (c.objs ob).name)).erase ob), some ob) := by
+  have hs := (lookupC_spec' hI (c.objs ob).name ob).mpr ⟨ho, hd, rfl⟩
+  rw [lookupC_eq] at hs ⊢
+  split at hs
+  · simp at hs
+  · rename_i j hj
+    simp at hs
+    subst hs
+    rfl
+
+theorem dropWhile_ne_head (ob : Nat) (l : List Nat) : ((ob :: l).dropWhile (· ≠ ob)).drop 1 = l := by
+  simp [List.dropWhile]
+
+/-- remove_object_hash of a live object (the precondition the C code relies on): exactly that object leaves its chain -/
+theorem removeHash_live {c : Core} {ob : Nat} (hI : Names c.n (deadF c) (nameF c) c.ot c.ctr) (ho : ob < c.n) (hd : (c.objs ob).destructed = false) :
+    removeHash c ob = setOt c (hashN (c.objs ob).name) ((c.ot (hashN (c.objs ob).name)).erase ob) := by
+  unfold removeHash
+  simp only [lookupC_live hI ho hd]
+  unfold nextHash
+  simp only [setOt]
+  simp [dropWhile_ne_head]
+  funext k
+  by_cases hk : k = hashN (c.objs ob).name <;> simp [hk]
+
+
+theorem removeHash_fields (c : Core) (i : Nat) :
+    (removeHash c i).n = c.n ∧ (removeHash c i).objs = c.objs ∧ (removeHash c i).ol = c.ol ∧
+    (removeHash c i).dl = c.dl ∧ (removeHash c i).lv = c.lv ∧ (removeHash c i).ctr = c.ctr := by
+  have e : removeHash c i = setOt (lookupC c (c.objs i).name).1 (hashN (c.objs i).name)
+      (nextHash (lookupC c (c.objs i).name).1 i) := rfl
+  rw [e]
+  rcases lookupC_core c (c.objs i).name with h | ⟨j, _, h⟩ <;> rw [h] <;> simp [setOt]
+
+/-- first block of the unlinking: `ob` leaves the inventory of its environment -/
+def unlinkC (c : Core) (ob : Nat) : Core :=
+  match (c.objs ob).super with
+  | none => c
+  | some s => setObj c s { c.objs s with contains := (c.objs s).contains.filter (· ≠ ob) }
+
+theorem unlinkC_fields (c : Core) (ob : Nat) :
+    (unlinkC c ob).n = c.n ∧ (unlinkC c ob).ot = c.ot ∧ (unlinkC c ob).ol = c.ol ∧
+    (unlinkC c ob).dl = c.dl ∧ (unlinkC c ob).lv = c.lv ∧ (unlinkC c ob).ctr = c.ctr := by
+  unfold unlinkC
+  cases (c.objs ob).super <;> simp [setObj]
+
+theorem unlinkC_same (c : Core) (ob : Nat) :
+    deadF (unlinkC c ob) = deadF c ∧ nameF (unlinkC c ob) = nameF c ∧ freedF (unlinkC c ob) = freedF c ∧
+    ecF (unlinkC c ob) = ecF c ∧ lnF (unlinkC c ob) = lnF c ∧ supF (unlinkC c ob) = supF c := by
+  refine ⟨?_, ?_, ?_, ?_, ?_, ?_⟩ <;> funext j <;> unfold unlinkC <;> cases (c.objs ob).super <;>
+    simp only [deadF, nameF, freedF, ecF, lnF, supF, setObj] <;> (repeat' split) <;> simp_all
+
+theorem unlinkC_cont {c : Core} {ob : Nat} (hL : Links c.n (deadF c) (supF c) (contF c)) :
+    contF (unlinkC c ob) = fun j => (contF c j).filter (· ≠ ob) := by
+  have hself : ∀ y, supF c ob ≠ some y → ob ∉ contF c y := fun y h hm => h ((hL.inv ob y).mp hm)
+  funext j
+  show ((unlinkC c ob).objs j).contains = _
+  unfold unlinkC
+  cases h : (c.objs ob).super with
+  | none =>
+    have hf : ∀ y, (contF c y).filter (· ≠ ob) = contF c y :=
+      fun y => filter_ne_of_not_mem (hself y (by simp [supF, h]))
+    simp only [hf]; rfl
+  | some s =>
+    have hf : ∀ y, y ≠ s → (contF c y).filter (· ≠ ob) = contF c y :=
+      fun y hy => filter_ne_of_not_mem (hself y (by simp [supF, h]; exact fun e => hy e.symm))
+    by_cases hjs : j = s
+    · subst hjs; simp [setObj, contF]
+    · simp only [hf j hjs]; simp [setObj, contF, hjs]
+
+theorem finishDestruct_def (c : Core) (ob : Nat) :
+    finishDestruct c ob =
+      (let c2 := removeHash (unlinkC c ob) ob
+       let c3 : Core := { c2 with ol := c2.ol.erase ob }
+       let c4 := removeLiving c3 ob
+       let c5 := setObj c4 ob { c4.objs ob with ec := false, super := none, contains := [], destructed := true }
+       { c5 with dl := ob :: c5.dl }) := rfl
+
+/-- what is left of a destructed object -/
+def deadObj (o : Obj) : Obj :=
+  { o with ec := false, super := none, contains := [], destructed := true, living := none }
+
+/-- the state after the unlink block of destruct_object, in closed form (`c1` = state after leaving the environment) -/
+def destroyed (c1 : Core) (ob : Nat) (h : Nat) (ln : Option String) : Core :=
+  { n := c1.n,
+    objs := fun j => if j = ob then deadObj (c1.objs ob) else c1.objs j,
+    ot := fun k => if k = h then (c1.ot k).erase ob else c1.ot k,
+    ol := c1.ol.erase ob, dl := ob :: c1.dl,
+    lv := fun k => match ln with
+      | none => c1.lv k
+      | some s => if k = lhash s then (c1.lv k).erase ob else c1.lv k,
+    ctr := c1.ctr }
+
+theorem finishDestruct_eq {c : Core} {ob : Nat} (hN : Names c.n (deadF c) (nameF c) c.ot c.ctr) (ho : ob < c.n)
+    (hd : (c.objs ob).destructed = false) :
+    finishDestruct c ob = destroyed (unlinkC c ob) ob (hashN (c.objs ob).name) (c.objs ob).living := by
+  rw [finishDestruct_def]
+  obtain ⟨u1, u2, u3, u4, u5, u6⟩ := unlinkC_fields c ob
+  obtain ⟨v1, v2, v3, v4, v5, v6⟩ := unlinkC_same c ob
+  generalize unlinkC c ob = c1 at *
+  have hN1 : Names c1.n (deadF c1) (nameF c1) c1.ot c1.ctr := by rw [u1, v1, v2, u2, u6]; exact hN
+  have ho1 : ob < c1.n := by rw [u1]; exact ho
+  have hd1 : (c1.objs ob).destructed = false := by
+    have := congrFun v1 ob; simp only [deadF] at this; rw [this]; exact hd
+  have hname : (c1.objs ob).name = (c.objs ob).name := by
+    have := congrFun v2 ob; simpa only [nameF] using this
+  have hliv : (c1.objs ob).living = (c.objs ob).living := by
+    have := congrFun v5 ob; simpa only [lnF] using this
+  rw [removeHash_live hN1 ho1 hd1]
+  simp only [removeLiving, setOt, hliv, hname]
+  cases hl : (c.objs ob).living with
+  | none =>
+    simp only [destroyed, setObj, deadObj]
+    congr 1
+    · funext j; by_cases h : j = ob <;> simp [h, hl, hliv]
+    · funext k; by_cases h : k = hashN (c.objs ob).name <;> simp [h]
+  | some s =>
+    simp only [destroyed, setObj, setLv, deadObj]
+    congr 1
+    · funext j; by_cases h : j = ob <;> simp [h]
+    · funext k; by_cases h : k = hashN (c.objs ob).name <;> simp [h]
+    · funext k; by_cases h : k = lhash s <;> simp [h]
+
+
+theorem destroyed_proj (c1 : Core) (ob h : Nat) (ln : Option String) :
+    deadF (destroyed c1 ob h ln) = (fun j => if j = ob then true else deadF c1 j) ∧
+    supF (destroyed c1 ob h ln) = (fun j => if j = ob then none else supF c1 j) ∧
+    contF (destroyed c1 ob h ln) = (fun j => if j = ob then [] else contF c1 j) ∧
+    nameF (destroyed c1 ob h ln) = nameF c1 ∧ freedF (destroyed c1 ob h ln) = freedF c1 ∧
+    ecF (destroyed c1 ob h ln) = (fun j => if j = ob then false else ecF c1 j) ∧
+    lnF (destroyed c1 ob h ln) = (fun j => if j = ob then none else lnF c1 j) := by
+  refine ⟨?_, ?_, ?_, ?_, ?_, ?_, ?_⟩ <;> funext j <;>
+    simp only [deadF, supF, contF, nameF, freedF, ecF, lnF, destroyed, deadObj] <;> by_cases hj : j = ob <;> simp [hj]
+
+/-- the unlink block of destruct_object keeps the invariant when it runs on a live object with an empty inventory -/
+theorem finishDestruct_inv {c : Core} {ob : Nat} (hI : Inv c) (ho : ob < c.n)
+    (hd : (c.objs ob).destructed = false) (he : (c.objs ob).contains = []) : Inv (finishDestruct c ob) := by
+  rw [finishDestruct_eq hI.names ho hd]
+  obtain ⟨u1, u2, u3, u4, u5, u6⟩ := unlinkC_fields c ob
+  obtain ⟨v1, v2, v3, v4, v5, v6⟩ := unlinkC_same c ob
+  have vc := unlinkC_cont (ob := ob) hI.links
+  obtain ⟨p1, p2, p3, p4, p5, p6, p7⟩ := destroyed_proj (unlinkC c ob) ob (hashN (c.objs ob).name) (c.objs ob).living
+  have hcont : (fun j => if j = ob then [] else contF (unlinkC c ob) j) =
+      (fun j => if j = ob then [] else (contF c j).filter (· ≠ ob)) := by rw [vc]
+  generalize hD : destroyed (unlinkC c ob) ob (hashN (c.objs ob).name) (c.objs ob).living = D at *
+  have hn : D.n = c.n := by subst hD; exact u1
+  have hctr : D.ctr = c.ctr := by subst hD; exact u6
+  have hot : D.ot = fun k => if k = hashN (nameF c ob) then (c.ot k).erase ob else c.ot k := by
+    subst hD; simp only [destroyed, u2]; rfl
+  have hol : D.ol = c.ol.erase ob := by subst hD; simp only [destroyed, u3]
+  have hdl : D.dl = ob :: c.dl := by subst hD; simp only [destroyed, u4]
+  have hlv : D.lv = fun k => match lnF c ob with
+      | none => c.lv k
+      | some s => if k = lhash s then (c.lv k).erase ob else c.lv k := by
+    subst hD; simp only [destroyed, u5]; rfl
+  constructor
+  · rw [p1, p2, p3, hcont, v1, v6, hn]
+    exact links_destroy hI.links ho he
+  · rw [p1, p4, v1, v2, hn, hot, hctr]
+    exact names_destroy hI.names
+  · rw [p1, p5, v1, v3, hn, hol, hdl]
+    exact lists_destroy hI.lists ho
+  · rw [p1, p6, p7, v1, v4, v5, hn, hlv]
+    exact living_destroy hI.living
+
 end NV.C08
